@@ -456,3 +456,20 @@ Proof.
   split; [rewrite S; cbn; split; [intros [H|H]; [discriminate|exact H]|intro H; right; exact H]|].
   intros E r. unfold fold_inv in I. rewrite E in I. apply I.
 Qed.
+
+(* a soft reset (reset_rpki with soft = true) only asks the cache for an update, now or when the
+   session is synchronised: it never changes the installed VRPs, the task or the registration *)
+Theorem C13_conn_soft_reset_keeps_table : forall (k : conn),
+  let k' := fst (fst (conn_step true k OResetSoft)) in
+  k_tab k' = k_tab k /\ k_task k' = k_task k /\ k_reg k' = k_reg k /\ k_disabled k' = k_disabled k.
+Proof.
+  intro k. unfold conn_step.
+  destruct (k_reg k) eqn:R; cbn [negb]; [|cbn [fst]; rewrite R; repeat split].
+  destruct (k_disabled k) eqn:D; [cbn [fst]; rewrite R, D; repeat split|].
+  destruct (k_task k) eqn:T.
+  - cbn [fst with_cur set_conn k_tab k_task k_reg k_disabled]. rewrite R, D. repeat split.
+  - unfold client_event. destruct (c_done (k_cur k)); [cbn [fst with_cur set_conn k_tab k_task k_reg k_disabled]; rewrite R, D; repeat split|].
+    unfold fire_permit. cbn [with_permit c_permit c_eod].
+    destruct (true && c_eod (k_cur k)); cbn [fst with_cur set_conn k_tab k_task k_reg k_disabled]; rewrite R, D; repeat split.
+  - cbn [fst with_cur set_conn k_tab k_task k_reg k_disabled]. rewrite R, D. repeat split.
+Qed.
